@@ -304,6 +304,11 @@ def map_iter_order(I, m):
     if m.kind.startswith("BTree"):
         return sort_items(I, list(m.entries), lambda a, b: cmp_vals(I, a[0], b[0]))
     es = list(m.entries)
+    mode = I.env.get("hash_order", "insertion")
+    if mode == "reversed":      # one global order for every hash container of the run (cheap whole-run witnesses)
+        return es[::-1]
+    if mode == "rotated":
+        return es[1:] + es[:1]
     if len(es) > 4 and I.env.get("hash_order", "insertion") == "any":
         # n! orders are out of reach: three representative orders (insertion, reversed, rotated), recorded as a restriction
         note = "hash containers with more than 4 entries are iterated in 3 representative orders only (insertion, reversed, rotated)"
